@@ -1414,7 +1414,13 @@ def _deserialize_node(
         proto.domain,
         proto.op_type,
         node_inputs,
-        [_deserialize_attribute(a, scoped_values) for a in proto.attribute],
+        [
+            _deserialize_attribute(a, scoped_values)
+            # Attribute names are unique in a valid node. When they are not, the last
+            # attribute with a name is the one the node keeps; do not deserialize the
+            # shadowed ones (their subgraphs would register uses of outer values)
+            for a in {a.name: a for a in proto.attribute}.values()
+        ],
         overload=getattr(proto, "overload", ""),
         outputs=node_outputs,
         name=proto.name,
